@@ -83,6 +83,7 @@ type Stats struct {
 
 type Config struct {
 	LoopBound int
+	Lazy      bool
 	StepBound int64
 	Preempt   int
 	MaxAlts   int
@@ -127,6 +128,7 @@ type Interp struct {
 	side      map[*Cell]interface{} // sync object state keyed by cell
 	uniqInit  []uniqEntry
 	uniqPath  []uniqEntry
+	lazyDirty bool
 	now       *Term                 // virtual clock (ns, BV64)
 	timers    []*Timer
 	steps     int64
